@@ -384,7 +384,7 @@ def run(ctx):
             if ctx.enough():
                 return
         ctx.count("boundary_lists", len(boundary_cases()))
-    for i in range(ctx.budget(15000, 800000)):
+    for i in range(ctx.budget(15000, 2400000)):
         case = gen_case(rng, i)
         compare(ctx, case)
         if i < 3:
